@@ -29,6 +29,12 @@ pub trait KKTSolver<T: FloatT>: HasLinearSolverInfo {
     fn verif_view(&self) -> Option<direct::verif_hooks_kkt::KktView<T>> {
         None
     }
+
+    /// verification hook (whole-solver correspondence): ordering used by the LDL engine
+    #[cfg(feature = "verif-hooks")]
+    fn verif_ldl_perm(&self) -> Option<Vec<usize>> {
+        None
+    }
 }
 
 pub trait HasLinearSolverInfo {
